@@ -1,7 +1,8 @@
 //vp:property C28
 //vp:pkg ./promql
 //vp:roots ./storage ./tsdb/chunkenc ./tsdb/chunks ./model/value ./model/histogram ./util/stats ./util/zeropool
-//vp:bounds instant selector over a series mixing float samples and native (float) histogram samples: <=2 samples (thorough 3), each a float with arbitrary value bits or a histogram with arbitrary sum bits (staleness markers of both kinds included), timestamps, lookback, offset, start, step as in the float harness, 2 (thorough 3) consecutive steps on one shared iterator
+//vp:assume the series iterator hands out histograms as chunk iterators do (copied into the caller's buffer or freshly allocated); storage's list iterator returns pointers into its stored samples, which matrixIterSlice then reuses as buffers - first harness version, false alarm
+//vp:bounds (the range selector evaluator.matrixIterSlice over storage.BufferedSeriesIterator is checked on the same mixed series: floats and histograms each exactly the non-stale samples of their kind inside (mint, maxt]) instant selector over a series mixing float samples and native (float) histogram samples: <=2 samples (thorough 3), each a float with arbitrary value bits or a histogram with arbitrary sum bits (staleness markers of both kinds included), timestamps, lookback, offset, start, step as in the float harness, 2 (thorough 3) consecutive steps on one shared iterator
 package promql
 
 import (
@@ -33,6 +34,22 @@ func (s vpXMix) Type() chunkenc.ValueType {
 }
 func (s vpXMix) Copy() chunks.Sample { return s }
 
+// vpXCopyIt makes the list iterator hand out histograms the way chunk iterators do: copied into the
+// caller's buffer (or freshly allocated), never a pointer into the stored data.
+type vpXCopyIt struct{ chunkenc.Iterator }
+
+func (c vpXCopyIt) AtFloatHistogram(fh *histogram.FloatHistogram) (int64, *histogram.FloatHistogram) {
+	t, h := c.Iterator.AtFloatHistogram(nil)
+	if h == nil {
+		return t, nil
+	}
+	if fh == nil {
+		return t, h.Copy()
+	}
+	h.CopyTo(fh)
+	return t, fh
+}
+
 // The instant selector returns the latest sample of the lookback window with its own kind and value -
 // a float is never reported with a histogram and a histogram is not judged by a float seen earlier.
 func vpH_C28_vectorSelector_mixed() {
@@ -63,7 +80,7 @@ func vpH_C28_vectorSelector_mixed() {
 	start := vpXBounded(vpInt64(), -(1 << 40), 1<<40)
 	step := vpXBounded(vpInt64(), 1, 1<<40)
 	ev := &evaluator{lookbackDelta: lookbackD, maxSamples: 1 << 30}
-	shared := storage.NewMemoizedIterator(storage.NewListSeriesIterator(cs), lookback)
+	shared := storage.NewMemoizedIterator(vpXCopyIt{storage.NewListSeriesIterator(cs)}, lookback)
 	for k := int64(0); k < vpXSteps(); k++ {
 		ts := start + k*step
 		_, gt, gv, gh, gok := ev.vectorSelectorSingle(shared, offsetD, ts)
@@ -96,6 +113,89 @@ func vpH_C28_vectorSelector_mixed() {
 			} else {
 				vpAssert(math.Float64bits(gv) == wbits, "float value returned as stored")
 			}
+		}
+	}
+	vpReach("end")
+}
+
+// Range selector over a series mixing floats and native histograms: floats and histograms are
+// returned in their own lists, each exactly the non-stale samples of its kind inside (mint, maxt].
+func vpH_C28_matrixSlice_mixed() {
+	hi := 2
+	if vpThorough() {
+		hi = 3
+	}
+	n := vpShape("n", 1, hi)
+	ss := make([]vpXMix, n)
+	cs := make(vpXSmps, n)
+	for i := range ss {
+		ss[i].t = vpInt64()
+		vpAssume(vpAnd(ss[i].t >= -(1<<40), ss[i].t <= 1<<40))
+		if i > 0 {
+			vpAssume(ss[i-1].t < ss[i].t)
+		}
+		if vpShape("kind", 0, 1) == 1 {
+			ss[i].fh = &histogram.FloatHistogram{Sum: vpFloat64(), Count: 1}
+		} else {
+			ss[i].f = vpFloat64()
+		}
+		cs[i] = ss[i]
+	}
+	rangeMs := vpXBounded(vpInt64(), 1, 1<<40)
+	offset := vpXBounded(vpInt64(), -(1 << 40), 1<<40)
+	start := vpXBounded(vpInt64(), -(1 << 40), 1<<40)
+	step := vpXBounded(vpInt64(), 1, 1<<40)
+	ev := &evaluator{maxSamples: 1 << 30}
+	it := storage.NewBuffer(rangeMs)
+	it.Reset(vpXCopyIt{storage.NewListSeriesIterator(cs)})
+	var floats []FPoint
+	var hists []HPoint
+	for k := int64(0); k < vpXSteps(); k++ {
+		ts := start + k*step
+		maxt := ts - offset
+		mint := maxt - rangeMs
+		floats, hists, _ = ev.matrixIterSlice(it, mint, maxt, floats, hists, nil)
+		vpObserve("nf", len(floats))
+		vpObserve("nh", len(hists))
+		for i, p := range floats {
+			if i > 0 {
+				vpAssert(floats[i-1].T < p.T, "float points in time order")
+			}
+			member := false
+			for _, s := range ss {
+				if s.fh == nil {
+					member = vpOr(member, vpAnd(vpAnd(s.t == p.T, math.Float64bits(s.f) == math.Float64bits(p.F)), vpAnd(vpAnd(s.t > mint, s.t <= maxt), math.Float64bits(s.f) != vpXStale)))
+				}
+			}
+			vpAssert(member, "every float point is a non-stale float sample inside (mint, maxt]")
+		}
+		for i, p := range hists {
+			if i > 0 {
+				vpAssert(hists[i-1].T < p.T, "histogram points in time order")
+			}
+			member := false
+			for _, s := range ss {
+				if s.fh != nil {
+					member = vpOr(member, vpAnd(vpAnd(s.t == p.T, math.Float64bits(s.fh.Sum) == math.Float64bits(p.H.Sum)), vpAnd(vpAnd(s.t > mint, s.t <= maxt), math.Float64bits(s.fh.Sum) != vpXStale)))
+				}
+			}
+			vpAssert(member, "every histogram point is a non-stale histogram sample inside (mint, maxt]")
+		}
+		for _, s := range ss {
+			present := false
+			bits := math.Float64bits(s.f)
+			if s.fh != nil {
+				bits = math.Float64bits(s.fh.Sum)
+				for _, p := range hists {
+					present = vpOr(present, p.T == s.t)
+				}
+			} else {
+				for _, p := range floats {
+					present = vpOr(present, p.T == s.t)
+				}
+			}
+			want := vpAnd(vpAnd(s.t > mint, s.t <= maxt), bits != vpXStale)
+			vpAssert(vpImplies(want, present), "no non-stale sample inside (mint, maxt] is lost, whatever its kind")
 		}
 	}
 	vpReach("end")
